@@ -560,11 +560,19 @@ func (dr *vDriver) monSendObs(o *gossipv1.SignedObservation) {
 }
 
 // the set applicable to an observation of digest dg at this moment (snapshot of the entry if any, else current)
+// Computed from the harness's OWN bookkeeping (the set it installed last, the set in force when it delivered the node's own
+// observation or injection of that digest in the current aggregation lifetime), never from the entry's gs field: an implementation
+// that pins a set on an entry it created for a peer's observation must not be believed about which set applies.
 func (dr *vDriver) applicable(dg string) *common.GuardianSet {
-	if s, ok := dr.p.state.vaaSignatures[dg]; ok && s.gs != nil {
-		return s.gs
+	if dr.sawLocal[dg] {
+		if g := dr.localGS[dg]; g != nil {
+			return g
+		}
 	}
-	return dr.p.gs
+	if n := len(dr.sets); n > 0 {
+		return dr.sets[n-1]
+	}
+	return nil
 }
 
 // ---------------------------------------------------------------- ops
